@@ -138,6 +138,9 @@ package common
 //@   atcall Read requires appendsAfterWhatWasRead: sameSlice(arg0.([]byte), buf[n:])
 //@   ensures bounds: 0 <= n && n <= len(buf)
 //@   ensures wholeMessageOrError: err == nil && called("(io.Reader).Read") ==> !succeeded("(io.Reader).Read")
+//@   # C11: a message that is not binary (a stray text / control message) is skipped - zero bytes, NO error - so it
+//@   # cannot end the connection's receive loop
+//@   ensures strayMessageSkipped: succeeded("(*github.com/gorilla/websocket.Conn).NextReader") && lastretOf[int]("(*github.com/gorilla/websocket.Conn).NextReader") != 2 ==> err == nil && n == 0
 //@   flag noframe
 //@   loop 0 invariant progress: 0 <= n && n <= len(buf) && r != nil
 //@ func (*WebSocketConn).Close
